@@ -6,7 +6,8 @@
 (*   inj  {ep, k, seq}             stale packet queued before the start     *)
 (*   tx   {ep, k, seq, c}          SYN / SYNACK / DATA put on the wire      *)
 (*   rx   {ep, k, seq} (hook)      the handshake loop looks at a packet     *)
-(*   hsTimeout {ep} (hook)         handshake timeout fired                  *)
+(*   hsTimeout {ep, to} (hook)     handshake timeout fired; to = the        *)
+(*                                 handshake timeout in force (ms)          *)
 (*   hsCancel                      the harness gives up waiting             *)
 (*   hsResult {cErr, sErr, cN, sN, c2s, s2c}  results of NewClientConn /    *)
 (*                                 NewServerConn and the first data exchange *)
@@ -16,8 +17,9 @@ EXTENDS GBNHandshake, Json
 CONSTANT TraceFile
 Trace == ndJsonDeserialize(TraceFile)
 
-VARIABLES l, heldC, heldS, cancelled, over
-tvars == <<vars, l, heldC, heldS, cancelled, over>>
+VARIABLES l, heldC, heldS, cancelled, over,
+          since   \* [endpoint -> time (ms) of its last tx / examined packet]
+tvars == <<vars, l, heldC, heldS, cancelled, over, since>>
 Ev == Trace[l]
 Is(o) == l <= Len(Trace) /\ Trace[l].ev = o
 Adv == l' = l + 1
@@ -25,27 +27,30 @@ KeepX == UNCHANGED <<heldC, heldS, cancelled, over>>
 
 P(r) == IF r.k = "SYN" THEN Syn(r.seq) ELSE [k |-> r.k]
 
-Stray == \/ \E i \in 1..Len(toC) : toC[i].k \in {"SYN", "SYNACK"}
+\* (a late SYN answer does not count: the client skips it)
+Stray == \/ \E i \in 1..Len(toC) : toC[i].k = "SYNACK"
          \/ \E i \in 1..Len(toS) : toS[i].k \in {"SYN", "SYNACK"}
 
 TraceInit == Init /\ l = 1 /\ heldC = <<>> /\ heldS = <<>> /\ cancelled = FALSE
-             /\ over = FALSE
+             /\ over = FALSE /\ since = [c |-> 0, s |-> 0]
 
 TReset ==
     /\ Is("reset") /\ Adv
     /\ cpc' = "start" /\ spc' = "waitSyn" /\ cResent' = FALSE /\ sResent' = FALSE
     /\ sN' = -1 /\ seenN' = {} /\ toC' = <<>> /\ toS' = <<>>
-    /\ drops' = 0 /\ dups' = 0 /\ timeouts' = 0
+    /\ drops' = 0 /\ dups' = 0 /\ timeouts' = 0 /\ absorbed' = FALSE
     /\ heldC' = <<>> /\ heldS' = <<>> /\ cancelled' = FALSE /\ over' = FALSE
+    /\ since' = [c |-> 0, s |-> 0]
 
 \* a stale packet of an earlier connection (ep = pretended sender)
-TInj == /\ Is("inj") /\ ~over /\ Adv /\ KeepX
+TInj == /\ Is("inj") /\ ~over /\ Adv /\ KeepX /\ UNCHANGED since
         /\ IF Ev.ep = "s" THEN toC' = Append(toC, P(Ev)) /\ UNCHANGED toS
            ELSE toS' = Append(toS, P(Ev)) /\ UNCHANGED toC
-        /\ UNCHANGED <<cpc, spc, cResent, sResent, sN, seenN, drops, dups, timeouts>>
+        /\ UNCHANGED <<cpc, spc, cResent, sResent, sN, seenN, drops, dups, timeouts, absorbed>>
 
 TTx ==
     /\ Is("tx") /\ ~over /\ Adv /\ KeepX
+    /\ since' = [since EXCEPT ![Ev.ep] = Ev.t]
     /\ IF Ev.ep = "c"
        THEN IF Ev.k = "SYN" THEN Ev.seq = CliN /\ CSendSyn(Ev.c)
             ELSE IF Ev.k = "SYNACK" THEN CSendSynAck(Ev.c)
@@ -54,18 +59,19 @@ TTx ==
                  /\ cpc \in {"done", "fail"} \/ cancelled
                  /\ toS' = Put(toS, [k |-> Ev.k], Ev.c)
                  /\ UNCHANGED <<cpc, spc, cResent, sResent, sN, seenN, toC,
-                                drops, dups, timeouts>>
+                                drops, dups, timeouts, absorbed>>
        ELSE IF Ev.k = "SYN" THEN Ev.seq = sN /\ SReply(Ev.c)
             ELSE /\ spc \in {"done", "fail"} \/ cancelled
                  /\ toC' = Put(toC, [k |-> Ev.k], Ev.c)
                  /\ UNCHANGED <<cpc, spc, cResent, sResent, sN, seenN, toS,
-                                drops, dups, timeouts>>
+                                drops, dups, timeouts, absorbed>>
 
 \* the handshake loop examines the next packet (hook after Deserialize).  The
 \* channels of the specification hold the packets sent and not yet examined;
 \* the reader goroutine hands them over in channel order.
 TRx ==
     /\ Is("rx") /\ ~over /\ Adv /\ KeepX
+    /\ since' = [since EXCEPT ![Ev.ep] = Ev.t]
     /\ IF Ev.ep = "c"
        THEN IF cpc \in {"done", "fail"} THEN UNCHANGED vars
             ELSE toC # <<>> /\ Head(toC) = P(Ev) /\ CRcv
@@ -73,20 +79,26 @@ TRx ==
             ELSE /\ toS # <<>> /\ Head(toS) = P(Ev)
                  /\ IF spc = "waitSyn" THEN SRcvWaitSyn ELSE SRcvWaitAck
 
+\* A wait of the handshake loop starts after the side has sent its SYN (and
+\* told the timeout manager, which boosts the handshake timeout on every
+\* resend) or after it has looked at a packet that did not end the wait; it
+\* lasts the handshake timeout then in force ("wait for SYN with the boosted
+\* timeout"): a side never gives up waiting earlier than that.
 THsTimeout ==
-    /\ Is("hsTimeout") /\ ~over /\ Adv /\ KeepX
+    /\ Is("hsTimeout") /\ ~over /\ Adv /\ KeepX /\ UNCHANGED since
     /\ IF Ev.ep = "c" THEN CTimeout ELSE STimeout
+    /\ Ev.t - since[Ev.ep] >= Ev.to
 
 \* the harness gives up waiting and cancels the context of whichever side is
 \* still in its handshake: that side's result is not judged
-TCancel == /\ Is("hsCancel") /\ Adv /\ UNCHANGED <<vars, heldC, heldS, over>>
+TCancel == /\ Is("hsCancel") /\ Adv /\ UNCHANGED <<vars, heldC, heldS, over, since>>
            /\ cancelled' = TRUE
 
 \* results: a side returned nil iff the specification has it done; an error
 \* iff failed (or the harness cancelled it); AgreeN on the adopted windows;
 \* and data flowed both ways when both are in the data phase
 TResult ==
-    /\ Is("hsResult") /\ Adv /\ UNCHANGED <<vars, heldC, heldS, cancelled>>
+    /\ Is("hsResult") /\ Adv /\ UNCHANGED <<vars, heldC, heldS, cancelled, since>>
     /\ over' = TRUE
     /\ (~cancelled \/ cpc \in {"done", "fail"}) =>
           /\ (Ev.cErr = "") = (cpc = "done")
@@ -105,7 +117,7 @@ TResult ==
 Handled == {"reset", "inj", "tx", "rx", "hsTimeout", "hsCancel", "hsResult"}
 TSkip == /\ l <= Len(Trace)
          /\ (Ev.ev \notin Handled \/ (over /\ Ev.ev \notin {"reset", "hsResult"}))
-         /\ Adv /\ UNCHANGED <<vars, heldC, heldS, cancelled, over>>
+         /\ Adv /\ UNCHANGED <<vars, heldC, heldS, cancelled, over, since>>
 
 TraceNext == TReset \/ TInj \/ TTx \/ TRx \/ THsTimeout \/ TCancel
              \/ TResult \/ TSkip
